@@ -196,4 +196,3 @@ func hhmmCall(g *G, op string, n int) callSpec {
 	}
 	return cs
 }
-
